@@ -104,6 +104,12 @@ class Model:
         raise AnalysisBroken("bad task reference %r" % (ref,))
 
 
+class _Return(Exception):
+    def __init__(self, value):
+        Exception.__init__(self)
+        self.value = value
+
+
 class Interp:
     """Partial evaluator for the three graph-building functions under one configuration."""
 
@@ -147,7 +153,9 @@ class Interp:
             return
         if k == "Null":
             return
-        if k in ("For", "While", "Do", "Switch", "Return", "Break", "Continue", "Goto", "ForRange"):
+        if k == "Return":
+            raise _Return(self.expr(s["x"], env) if s.get("x") else None)
+        if k in ("For", "While", "Do", "Switch", "Break", "Continue", "Goto", "ForRange"):
             self.broken(s, "control statement %s" % k)
         v = self.expr(s, env)
         return v
@@ -190,6 +198,10 @@ class Interp:
             self.broken(e, "binary operator " + op)
         if k == "Call":
             return self.call(e, env)
+        if k == "Lambda":
+            return ("closure", e, env)
+        if k == "Ctor" and len(e.get("a", [])) == 1 and C.strip_casts(e["a"][0]).get("k") == "Lambda":
+            return ("closure", C.strip_casts(e["a"][0]), env)
         self.broken(e, "expression kind %s" % k)
 
     def compare(self, op, a, b, e):
@@ -240,6 +252,27 @@ class Interp:
         cls = e.get("cls", "")
         obj = self.expr(e["obj"], env) if e.get("obj") is not None else None
         args = e["a"]
+        if isinstance(obj, tuple) and obj[0] == "closure" and e.get("op") == "()":
+            lam, cenv = obj[1], obj[2]
+            params = lam.get("params", [])
+            if len(params) != len(args):
+                self.broken(e, "lambda arity")
+            inner = cenv            # captures by reference: the defining environment itself
+            saved = {}
+            for p, a in zip(params, args):
+                saved[p["id"]] = inner.get(p["id"], None)
+                inner[p["id"]] = self.expr(a, env)
+            try:
+                self.stmt(lam["body"], inner)
+                ret = None
+            except _Return as r:
+                ret = r.value
+            for pid, old in saved.items():
+                if old is None:
+                    inner.pop(pid, None)
+                else:
+                    inner[pid] = old
+            return ret
         if e.get("op") == "*" and obj is not None:
             if isinstance(obj, tuple) and obj[0] == "subptr":
                 return ("subobj", obj[1])
@@ -469,8 +502,73 @@ def run(chk, prog):
     chk.extra["cross_subgrid_edges"] = {AXES[a]: {"into_lower_neighbour": nb_in[a],
                                                   "out_of_lower_neighbour": nb_out[a]} for a in range(3)}
 
+    # ---- G8: data-dependency coverage -------------------------------------------------------
+    # a task that touches subgrid X in the gradient phase must be a parent of X's slope limiter; X's
+    # prediction must be a parent of every flux task touching X; every flux task touching X must be a
+    # parent of X's conserved-variable update. Roles (limiter, predict, update, pair slots) are read from
+    # the extracted model, not from slot numbers.
+    def role_slots(c, m):
+        by_phase = {}
+        pair = {}
+        for k, ref in m.slots.items():
+            if ref == "NO_TASK":
+                continue
+            t = m.tasks[ref]
+            ph = PHASE_OF_METHOD[dispatch[t["type"][1]]["method"]]
+            by_phase.setdefault(ph, []).append(k)
+            if dispatch[t["type"][1]]["buffer"] and t.get("buffer"):
+                d = t.get("interaction_direction")
+                if d and d[1] in dirmap:
+                    pair[(ph, dirmap[d[1]][0])] = k
+        return by_phase, pair
+    g8 = {}
+    for cname, (c, m) in sorted(models.items()):
+        by_phase, pair = role_slots(c, m)
+        if not all(len(by_phase.get(p, [])) == 1 for p in (1, 2, 4, 5)):
+            raise AnalysisBroken("limiter / predict / update tasks are not unique per subgrid")
+        lim, pred, upd, prim = (by_phase[p][0] for p in (1, 2, 4, 5))
+        own_edges = set()
+        for s_, d_, l_ in m.edges:
+            ss, ds = m.ref_slot(s_), m.ref_slot(d_)
+            own_edges.add((ss, ds))
+        need = []
+        for k in by_phase.get(0, []):
+            need.append((("G", k), ("G", lim), "gradient task in slot %d -> own slope limiter" % k))
+        need.append((("G", lim), ("G", pred), "slope limiter -> prediction"))
+        for k in by_phase.get(3, []):
+            need.append((("G", pred), ("G", k), "prediction -> flux task in slot %d" % k))
+            need.append((("G", k), ("G", upd), "flux task in slot %d -> conserved update" % k))
+        need.append((("G", upd), ("G", prim), "conserved update -> primitive update"))
+        for src, dst, what in need:
+            n_ob_g8 = g8.setdefault("n", 0)
+            g8["n"] = n_ob_g8 + 1
+            if (src, dst) not in own_edges:
+                agg_g8 = g8.setdefault("fail", {})
+                agg_g8.setdefault(("G8", "set_dependencies", what), []).append(
+                    (cname, what, where(sd), "the task graph has no edge %s although the later task reads what the "
+                     "earlier one writes on this subgrid: it can start too early" % what))
+        # pair tasks also touch the +a neighbour: the neighbour's set_dependencies must add the edges
+        for a in range(3):
+            if c.P[a] in ("GT", "LT") and not c.same[a]:
+                gk, fk = pair.get((0, a)), pair.get((3, a))
+                want_out = sorted([(gk, lim), (fk, upd)])
+                want_in = sorted([(pred, fk)])
+                g8["n"] = g8.get("n", 0) + 2
+                if sorted(nb_out[a]) != want_out:
+                    g8.setdefault("fail", {}).setdefault(("G8", "set_dependencies", "cross edges out of -%s neighbour" % AXES[a]), []).append(
+                        (cname, "pair tasks across the %s interface -> the upper subgrid's limiter / update" % AXES[a],
+                         where(sd), "the upper subgrid hooks its slope limiter / conserved update to slots %s of its -%s "
+                         "neighbour, but the pair tasks that touch it are in slots %s: it can run before the "
+                         "cross-interface sweep" % (sorted(nb_out[a]), AXES[a], want_out)))
+                if sorted(nb_in[a]) != want_in:
+                    g8.setdefault("fail", {}).setdefault(("G8", "set_dependencies", "cross edges into -%s neighbour" % AXES[a]), []).append(
+                        (cname, "the upper subgrid's prediction -> pair flux task across the %s interface" % AXES[a],
+                         where(sd), "prediction of the upper subgrid is hooked to slots %s of its -%s neighbour, the "
+                         "pair flux task is in slot %s" % (sorted(nb_in[a]), AXES[a], want_in)))
     n_ob = {"G1": 0, "G2": 0, "G3": 0, "G4": 0, "G5": 0, "G6": 0, "G7": 0}
     agg = dict(model_viol)
+    for kk, vv in g8.get("fail", {}).items():
+        agg[kk] = vv
 
     class _Agg:
         def fail(self, rule, instance, loc, detail, function="", construct=""):
@@ -629,12 +727,13 @@ def run(chk, prog):
         chk.extra.setdefault("enumerated", {})[rule] = {"obligations": n, "violated": nf}
     # represent the discharged obligations compactly: one per (rule, configuration)
     for cname in sorted(models):
-        for rule in ("G1", "G2", "G3", "G4", "G5", "G6", "G7"):
+        for rule in ("G1", "G2", "G3", "G4", "G5", "G6", "G7", "G8"):
             if not any(r == rule and inst.startswith(cname + " |") for r, inst in failed):
                 chk.ok(rule, "%s | all slots/edges" % cname, where(mk if rule not in ("G1", "G6") else rs))
     chk.floor("G-configs", len(models) + sum(len(v) for v in model_viol.values()), 300)
     if not model_viol:
         chk.floor("G1", n_ob["G1"], 4000)
+        chk.floor("G8", g8.get("n", 0), 10000)
         chk.floor("G2", n_ob["G2"], 5000)
 
     check_worker_loop(chk, unit)
